@@ -155,6 +155,8 @@ var ops = []opDef{
 		m: func(w *world, x pm.Object, k pm.Key, a, r pm.Val) pm.Val {
 			return protoAnd(pm.ReflectConstruct(pm.ObjVal(x), list(w, pm.Num(1)), pm.ObjVal(w.CA)))
 		}},
+	{name: "Array.isArray", js: `return Array.isArray(x);`, traps: []string{"apply"},
+		m: func(w *world, x pm.Object, k pm.Key, a, r pm.Val) pm.Val { return pm.IsArray(x) }},
 	{name: "typeof", js: `return typeof x;`, traps: []string{"apply", "construct"},
 		m: func(w *world, x pm.Object, k pm.Key, a, r pm.Val) pm.Val { return pm.TypeOf(x) }},
 }
